@@ -13,7 +13,7 @@ def add_obligations(pack, tier, seed):
     items += [(D.declaration('C07', *D.GENBASE),), (D.declaration('C07', *D.LINE),)]
     # events at exact times: the candidate times handed to the schedule are exactly the declared times (and t -+ eps)
     from contracts import C06_more
-    items += [(C06_more.store_switch_times_head('C07'), None, C06_more.replay_store_switch_times), (C06_more.is_time('C07'),)]
+    items += [(C06_more.store_switch_times_head('C07'), None, C06_more.replay_store_switch_times), (C06_more.is_time('C07'), None, C06_more.replay_is_time)]
     # the small-signal premise: the state matrix is the reduction of the assembled Jacobian blocks and time constants
     from contracts import fn_eig as E
     items += [(E.reduce_('C07'),), (E.calc_as('C07'), None, E.replay_calc_as)]
